@@ -58,7 +58,9 @@ def is_solution(cnf, assignment):
     return True
 
 def solve_cnf(cnf, *, debug=False):
-    cnf = copy(cnf)  # avoid modifying the input
+    # Avoid modifying the input. Remove repeated literals within each clause,
+    # so that a clause with one distinct unassigned literal is seen as unit.
+    cnf = [list(dict.fromkeys(clause)) for clause in cnf]
     assigns = dict()
     level = 0
     proofs = dict()
